@@ -214,19 +214,25 @@ def catchup (P : Params) (g : Group) (h : Int) : CatchRes × Group :=
       let endHeight := if h = 1 then 0 else h - 1
       match search P g1 endHeight true with
       | (.err e, g2) => (.searchErr e, g2)
-      | (.notFound, g2) => (.noMarker, g2)
+      | (.notFound, g2) =>
+        -- before the missing marker is written: a strict pass, so that a damaged tail is
+        -- repaired first instead of being buried under new records
+        match search P g2 endHeight false with
+        | (.err e, g3) => (.corrupt [] e, g3)
+        | (_, g3) => (.noMarker, g3)
       | (.found rest, g2) =>
         match readAllG P rest with
         | (ds, .corrupt e) => (.corrupt ds e, g2)
         | (ds, _) => (.ok ds, g2)
 
 /-- steps 1–3 of the repair in `State.OnStart` + `loadWalFile`: stop the WAL, back the head up as
-`.CORRUPTED`, rewrite the head with its decodable prefix (fsynced), open and start the WAL again -/
-def repairHead (P : Params) (S : Nat) (g : Group) (e0 : Bytes) : Group × Bool :=
+`.CORRUPTED`, rewrite the head with its decodable prefix (fsynced), open and start the WAL again
+(`OpenWAL` passes no group options: the limits are the defaults `dhl`, `dtl` from then on) -/
+def repairHead (P : Params) (S : Nat) (dhl dtl : Nat) (g : Group) (e0 : Bytes) : Group × Bool :=
   let g1 := stop g
   let h := repair P g1.head
   let g2 := { g1 with cor := some g1.head.length, head := h, synced := h.length }
-  onStart P S (openGroup g2 g2.headLimit g2.totalLimit) e0
+  onStart P S (openGroup g2 dhl dtl) e0
 
 inductive RecoverRes where
   | first (r : CatchRes)                    -- no repair attempted
@@ -234,12 +240,28 @@ inductive RecoverRes where
   deriving Repr
 
 /-- the catch-up loop of `State.OnStart` -/
-def recover (P : Params) (S : Nat) (g : Group) (h : Int) (e0 : Bytes) : RecoverRes × Group :=
+def recover (P : Params) (S : Nat) (dhl dtl : Nat) (g : Group) (h : Int) (e0 : Bytes) :
+    RecoverRes × Group :=
   match catchup P g h with
   | (.corrupt _ e, g1) =>
-    let (g2, w) := repairHead P S g1 e0
+    let (g2, w) := repairHead P S dhl dtl g1 e0
     let (r, g3) := catchup P g2 h
     (.repaired e r w, g3)
   | (r, g1) => (.first r, g1)
+
+def lastAttempt : RecoverRes → CatchRes
+  | .first r => r
+  | .repaired _ r _ => r
+
+/-- `catchupReplay`'s marker-missing branch (repaired code, commit fe30a5c): when the marker of the
+previous height is not found (and the strict pass of `catchup` saw no damage),
+`WriteSync(EndHeightMessage{endHeight})` (`em` = its marshalled
+form) and return nil — whatever the tail of the head looks like. -/
+def recoverW (P : Params) (S : Nat) (dhl dtl : Nat) (g : Group) (h : Int) (e0 em : Bytes) :
+    RecoverRes × Group :=
+  let (res, g') := recover P S dhl dtl g h e0
+  match lastAttempt res with
+  | .noMarker => (res, (writeSync P S g' em).getD g')
+  | _ => (res, g')
 
 end Tmv.Wal
